@@ -348,6 +348,7 @@ class RefOp:
     examples: list = field(default_factory=list)
     secured: bool = False
     x_internal: bool = False
+    malformed: str | None = None  # kind of deliberate damage to this operation's definition (it must be reported, not offered)
 
     @property
     def label(self) -> str:
@@ -628,6 +629,26 @@ class Universe:
             "paths": paths,
             "components": components,
         }
+        mal = desc.get("malformed")
+        if mal and mal["op"] in self.ops:
+            refop = self.ops[mal["op"]]
+            coll = next(c for c in desc["collections"] if c["name"] == refop.collection)
+            mkey = refop.method if coll.get("upper_methods") else refop.method.lower()
+            opdef = paths[refop.path][mkey]
+            kind = mal["kind"]
+            if kind == "missing_ref_param":
+                opdef.setdefault("parameters", []).append({"$ref": "#/components/parameters/Missing"})
+            elif kind == "param_without_in":
+                opdef.setdefault("parameters", []).append({"name": "broken", "schema": {"type": "string"}})
+            elif kind == "missing_ref_schema":
+                opdef.setdefault("parameters", []).append({"name": "broken", "in": "query", "schema": {"$ref": "#/components/schemas/Nope"}})
+            elif kind == "missing_ref_body":
+                opdef["requestBody"] = {"$ref": "#/components/requestBodies/Nope"}
+            elif kind == "parameters_not_list":
+                opdef["parameters"] = {"broken": 1}
+            elif kind == "param_null":
+                opdef.setdefault("parameters", []).append(None)
+            refop.malformed = kind
         spec = desc.get("spec", "3.0")
         if spec == "3.1":
             self.doc["openapi"] = "3.1.0"
@@ -806,7 +827,11 @@ def to_swagger2(doc: dict) -> dict:
             return [conv(x) for x in node]
         return node
 
-    def conv_param(p: dict) -> dict:
+    def conv_param(p: Any) -> Any:
+        if not isinstance(p, dict):
+            return p  # deliberately damaged entry
+        if "$ref" in p:
+            return {"$ref": p["$ref"].replace("#/components/parameters/", "#/parameters/")}
         q = {k: v for k, v in p.items() if k not in ("schema", "example", "examples")}
         q.update(conv(p.get("schema") or {}))
         if "example" in q:
@@ -819,8 +844,15 @@ def to_swagger2(doc: dict) -> dict:
 
     def conv_op(op: dict) -> dict:
         new = {k: copy.deepcopy(v) for k, v in op.items() if k not in ("requestBody", "parameters", "responses")}
-        params = [conv_param(p) for p in op.get("parameters", [])]
+        raw_params = op.get("parameters", [])
+        if not isinstance(raw_params, list):
+            new["parameters"] = copy.deepcopy(raw_params)  # deliberately damaged entry
+            raw_params = []
+        params = [conv_param(p) for p in raw_params]
         rb = op.get("requestBody")
+        if rb and "$ref" in rb:
+            params.append({"$ref": "#/parameters/Nope"})  # 2.0 spelling of an unresolvable body reference
+            rb = None
         if rb:
             media = rb["content"]["application/json"]
             bp = {"in": "body", "name": "body", "required": bool(rb.get("required")), "schema": conv(media["schema"])}
@@ -829,7 +861,7 @@ def to_swagger2(doc: dict) -> dict:
             if "examples" in media:
                 bp["x-examples"] = copy.deepcopy(media["examples"])
             params.append(bp)
-        if params:
+        if params and "parameters" not in new:
             new["parameters"] = params
         responses = {}
         for code, r in op["responses"].items():
